@@ -29,9 +29,9 @@ def table(logs, ok=lambda p: True, mutants=False):
             print("| %s | %s | %s |"%(a,b.replace('.diff',''),"  → after strengthening: ".join(h)))
     if gone:
         print("\n(%d mutants of the first sweep no longer apply to the repaired tree and were rewritten as `*-b.diff` / `*-c.diff`; one became equivalent and is kept as `*.benign-*.diff`.)"%gone)
-table(['/verif/mutants/sweep-results/mutant-sweep.log','/verif/mutants/sweep-results/mutant-sweep2.log','/verif/mutants/sweep-results/mutant-extra.log'], mutants=True)
+table(['/verif/mutants/sweep-results/mutant-sweep.log','/verif/mutants/sweep-results/mutant-sweep2.log','/verif/mutants/sweep-results/mutant-extra.log','/verif/mutants/sweep-results/mutant-sweep3.log'], mutants=True)
 print("\n#### (b) every `fix:` commit reverted (`tools/regress-sweep`): the defect is re-introduced in a scratch worktree\n")
 print("| reverted fix | check | result |\n|---|---|---|")
-table(['/verif/mutants/sweep-results/regress.log','/verif/mutants/sweep-results/regress2.log','/verif/mutants/sweep-results/regress-manual.log','/verif/mutants/sweep-results/regress3.log','/verif/mutants/sweep-results/regress4.log','/verif/mutants/sweep-results/regress5.log','/verif/mutants/sweep-results/regress6.log','/verif/mutants/sweep-results/regress-manual2.log'], lambda p: p[2].startswith(('DETECTED','MISSED')))
+table(['/verif/mutants/sweep-results/regress.log','/verif/mutants/sweep-results/regress2.log','/verif/mutants/sweep-results/regress-manual.log','/verif/mutants/sweep-results/regress3.log','/verif/mutants/sweep-results/regress4.log','/verif/mutants/sweep-results/regress5.log','/verif/mutants/sweep-results/regress6.log','/verif/mutants/sweep-results/regress-manual2.log','/verif/mutants/sweep-results/regress7.log','/verif/mutants/sweep-results/regress-manual3.log'], lambda p: p[2].startswith(('DETECTED','MISSED')))
 print("\n#### (c) independently seeded changes (`seeded/<id>/`)\n")
 print(open('/verif/seeded/SUMMARY.md').read().split('\n\n',2)[2])
